@@ -1,6 +1,6 @@
 """C04 - implicit WHITESPACE/COMMENT and atomicity modifiers (interpreter side)."""
 from . import groups as g
-from . import ops
+from . import ops, unroll_struct
 
 PROPERTY = "C04"
 EXPLANATION = (
@@ -11,11 +11,15 @@ EXPLANATION = (
 )
 TRUSTED = g.COMMON_TRUSTED
 ASSUMPTIONS = [*g.COMMON_ASSUMPTIONS, "the optimizer-built SKIP rule never fails (a * repetition)"]
-BOUNDED: list[str] = []
+BOUNDED = ["bounded repetitions e{n}, e{n,}, e{,n}, e{m,n}: the delegation to the unrolled sequence is proved for all n; that unroll() builds the named sequence is run concretely for parameters 0..5 (contracts/unroll_struct.py)"]
 
 
 def specs(tier):
-    return [ops.SequenceSpec(), ops.RepeatSpec(), ops.RepeatOnceSpec(), *g.rules(), *g.trivia()]
+    return [ops.SequenceSpec(), ops.RepeatSpec(), ops.RepeatOnceSpec(), *ops.bounded_repeat_specs(), *g.rules(), *g.trivia()]
 
 from .groups import concretise_ops
 concretise = concretise_ops(PROPERTY)
+
+
+def extra_checks(tier, seed):
+    return [unroll_struct.check()]
